@@ -209,6 +209,38 @@ theorem range_sampler_full_cycle (vs : List α) (hv : 0 < vs.length) (st : List 
       rw [this, List.getD_eq_getElem?_getD, List.getElem?_eq_getElem hj]; rfl
   exact ⟨key 0 (Or.inl rfl), key _ (Or.inr rfl)⟩
 
+/-- A range sampler that has been used before (`k` earlier `sample()` calls: a Monte-Carlo preview, a manual
+`apply()`/`reset()`; the driver's `ra` sampler) is the same sampler at some index `i ≤ len`. -/
+theorem used_range_sampler_state (vs : List α) (hv : 0 < vs.length) (k : Nat) :
+    ∃ i, i ≤ vs.length ∧
+      Nat.repeat (fun s => (s.sample ([] : List α)).2.1) k (Sampler.range vs 0) = Sampler.range vs i := by
+  induction k with
+  | zero => exact ⟨0, Nat.zero_le _, rfl⟩
+  | succ k ih =>
+    obtain ⟨i, hi, h⟩ := ih
+    by_cases hc : vs.length ≤ i
+    · refine ⟨1, hv, ?_⟩
+      show ((Nat.repeat (fun s => (s.sample ([] : List α)).2.1) k (Sampler.range vs 0)).sample []).2.1 = _
+      rw [h]
+      simp only [Sampler.sample, if_pos hc]
+    · refine ⟨i + 1, by omega, ?_⟩
+      show ((Nat.repeat (fun s => (s.sample ([] : List α)).2.1) k (Sampler.range vs 0)).sample []).2.1 = _
+      rw [h]
+      simp only [Sampler.sample, if_neg hc]
+
+/-- The block of `SensitivityAnalysis.run` on such a sampler records the range values rotated by that index:
+every row still holds the value that `sample()` returned (and `sensitivity_rows_fresh`, which holds for *any*
+sampler state, pairs it with the operands evaluated for exactly that value). -/
+theorem used_range_sampler_block (vs : List α) (hv : 0 < vs.length) (k : Nat) (st : List α) :
+    ∃ i, i ≤ vs.length ∧
+      sampleSeq (Nat.repeat (fun s => (s.sample ([] : List α)).2.1) k (Sampler.range vs 0)) st vs.length
+        = (List.range vs.length).map fun j => vs.getD ((i + j) % vs.length) 0 := by
+  obtain ⟨i, hi, h⟩ := used_range_sampler_state vs hv k
+  exact ⟨i, hi, by rw [h]; exact sampleSeq_range vs hv st vs.length i hi⟩
+
+example : Nat.repeat (fun s => (s.sample ([] : List ℝ)).2.1) 5 (Sampler.range [10, 20, 30] 0)
+    = Sampler.range [10, 20, 30] 2 := by simp [Nat.repeat, Sampler.sample]
+
 /-- a `ScalarSampler` returns its value and does not change -/
 theorem scalar_sampler_constant (v : α) (st : List α) : (Sampler.scalar v).sample st = (v, .scalar v, st) := rfl
 
